@@ -1,6 +1,6 @@
 (* Properties_C08.v — C08: coroutine mutex, FIFO hand-off and no lost request.
    Statements only; proofs are `exact <lemma of MutexProofs>`.  Same model and vocabulary as Properties_C07. *)
-From Cocls Require Import Base BaseProofs MutexDefs MutexProofs.
+From Cocls Require Import Base BaseProofs MutexDefs MutexProofs MutexSched MutexObs.
 Local Open Scope Z_scope.
 
 (* first come, first served: the grants are a prefix of the publishing CASes; the pending requests are, in
@@ -36,6 +36,36 @@ Theorem c08_try_lock : forall ops s t c, reachable ops s -> run (gthr s t) = TRu
   ((exists o, holds s o) -> s' = set_task s c (t_endround (gtask s c) true) /\ ~ holds s' c /\ ~ waiting s' c).
 Proof. exact try_lock. Qed.
 Print Assumptions c08_try_lock.
+
+(* deadlock freedom: while any declared contender is unfinished, some OS thread has an enabled step
+   (its owner can run and release; a granted coroutine sits in the ready queue of a thread that is not blocked) *)
+Theorem c08_no_stuck_state : forall ops s c, reachable ops s -> (c < length (tasks s))%nat -> tpc (gtask s c) <> PDone ->
+  exists t, enabled s t = true.
+Proof. exact no_stuck_state. Qed.
+Print Assumptions c08_no_stuck_state.
+
+(* hence a run can only stop when every contender finished all its rounds, and then the mutex is free again and
+   every published request was granted *)
+Theorem c08_terminal_all_done : forall ops s, reachable ops s -> (forall t, enabled s t = false) ->
+  (forall c, tpc (gtask s c) = PDone) /\ requests s = PNull /\ queue s = PNull /\ alog s = glog s.
+Proof. exact terminal_all_done. Qed.
+Print Assumptions c08_terminal_all_done.
+
+(* bounded waiting: the grants preceding the grant of a pending request w are exactly the requests pending ahead
+   of it (each once, all published before w): at most (number of requests published before w) grants *)
+Theorem c08_bounded_waiting : forall ops s w, reachable ops s -> waiting s w ->
+  exists a b, alog s = glog s ++ a ++ w :: b /\ ~ In w a /\ (forall x, In x a -> waiting s x).
+Proof. exact bounded_waiting. Qed.
+Print Assumptions c08_bounded_waiting.
+
+(* fragment of oracle soundness: the final observation block of any run that stopped: no error line, no stuck
+   thread (no deadlock line), last line "8 0 1 1" (no overlap, requests = null, queue = null), every contender done *)
+Theorem c08_final_block : forall ops s, reachable ops s -> (forall t, enabled s t = false) ->
+  err s = false /\ stuck_list (thrs s) 0 = [] /\
+  [8; b2z (ovl s); is_null (requests s); is_null (queue s)] = [8; 0; 1; 1] /\
+  (forall c, tpc (gtask s c) = PDone) /\ alog s = glog s.
+Proof. exact final_block. Qed.
+Print Assumptions c08_final_block.
 
 (* the invariant behind all of this is inductive over every step of every thread *)
 Theorem c08_invariant_inductive : forall s t, SInv s -> enabled s t = true -> SInv (fst (fst (tstep s t))).
